@@ -15,9 +15,9 @@ import (
 
 func gen(rng *h.Rng, tier string, emit func(string)) {
 	st := h.Stats{}
-	n := 2500
+	n := 8000
 	if tier == "thorough" {
-		n = 60000
+		n = 300000
 	}
 	for i := 0; i < n; i++ {
 		nops := 4 + rng.Intn(14)
